@@ -213,13 +213,13 @@ fn same(out: &RunOut, sig: &str) -> bool {
     matches!(&out.violation, Some(v) if v.sig == sig)
 }
 
-fn attempt(prof: &Profile, known: &Known, seq: &[u32], sig: &str, budget: &mut u32) -> Option<RunOut> {
+fn attempt(prof: &Profile, known: &Known, blocks: &[Vec<u32>], sig: &str, budget: &mut u32) -> Option<RunOut> {
     if *budget == 0 {
         return None;
     }
     *budget -= 1;
     let mut st = Stats::default();
-    let out = run_one(prof, Chooser::replay(seq.to_vec()), &mut st, known, false);
+    let out = run_one(prof, Chooser::replay(blocks.to_vec()), &mut st, known, false);
     if same(&out, sig) {
         Some(out)
     } else {
@@ -227,12 +227,21 @@ fn attempt(prof: &Profile, known: &Known, seq: &[u32], sig: &str, budget: &mut u
     }
 }
 
-/// Minimise the choice sequence while the same violation signature persists.
+fn blocks(out: &RunOut) -> Vec<Vec<u32>> {
+    Chooser::blocks_of(&out.choices, &out.marks)
+}
+
+fn weight(b: &[Vec<u32>]) -> (usize, u64) {
+    (b.iter().map(|x| x.len()).sum(), b.iter().flat_map(|x| x.iter()).map(|&v| v as u64).sum())
+}
+
+/// Minimise the choice sequence while the same violation signature persists:
+/// delete whole scheduler steps, zero single choices (0 is always the benign
+/// alternative), halve what is left.  Blocks keep later choices aligned.
 fn shrink(prof: &Profile, known: &Known, start: RunOut, sig: &str) -> (RunOut, u32) {
-    let mut budget = 3000u32;
+    let mut budget = 12000u32;
     let mut cur = start;
-    // normalise: replaying the recorded sequence must reproduce
-    match attempt(prof, known, &cur.choices.clone(), sig, &mut budget) {
+    match attempt(prof, known, &blocks(&cur), sig, &mut budget) {
         Some(o) => cur = o,
         None => return (cur, 0),
     }
@@ -240,57 +249,49 @@ fn shrink(prof: &Profile, known: &Known, start: RunOut, sig: &str) -> (RunOut, u
     while improved && budget > 0 {
         improved = false;
         // (1) delete whole scheduler steps, last first
-        let mut i = cur.marks.len();
-        while i > 0 && budget > 0 {
+        let cfg_blocks = cur.cfg_end as usize;
+        let mut i = blocks(&cur).len();
+        while i > cfg_blocks && budget > 0 {
             i -= 1;
-            if i >= cur.marks.len() {
+            let mut cand = blocks(&cur);
+            if i >= cand.len() {
                 continue;
             }
-            let a = cur.marks[i] as usize;
-            let b = if i + 1 < cur.marks.len() { cur.marks[i + 1] as usize } else { cur.choices.len() };
-            if a >= b || b > cur.choices.len() {
-                continue;
-            }
-            let mut cand = cur.choices.clone();
-            cand.drain(a..b);
+            cand.remove(i);
             if let Some(o) = attempt(prof, known, &cand, sig, &mut budget) {
-                if o.choices.len() < cur.choices.len() {
-                    cur = o;
-                    improved = true;
-                }
+                cur = o;
+                improved = true;
             }
         }
-        // (2) zero single choices (removes a fault, shrinks a size, picks node 0)
-        let mut k = 0;
-        while k < cur.choices.len() && budget > 0 {
-            if cur.choices[k] != 0 {
-                let mut cand = cur.choices.clone();
-                cand[k] = 0;
-                if let Some(o) = attempt(prof, known, &cand, sig, &mut budget) {
-                    if o.choices.len() <= cur.choices.len() {
-                        cur = o;
-                        improved = true;
+        // (2) zero single choices, (3) halve
+        for pass in 0..2 {
+            let mut bi = 0;
+            while bi < blocks(&cur).len() && budget > 0 {
+                let mut k = 0;
+                loop {
+                    let bl = blocks(&cur);
+                    if bi >= bl.len() || k >= bl[bi].len() || budget == 0 {
+                        break;
                     }
-                }
-            }
-            k += 1;
-        }
-        // (3) halve what is left
-        let mut k = 0;
-        while k < cur.choices.len() && budget > 0 {
-            if cur.choices[k] > 1 {
-                let mut cand = cur.choices.clone();
-                cand[k] /= 2;
-                if let Some(o) = attempt(prof, known, &cand, sig, &mut budget) {
-                    if o.choices.len() <= cur.choices.len() {
-                        cur = o;
+                    let v = bl[bi][k];
+                    let nv = if pass == 0 { 0 } else { v / 2 };
+                    if v != nv {
+                        let mut cand = bl.clone();
+                        cand[bi][k] = nv;
+                        if let Some(o) = attempt(prof, known, &cand, sig, &mut budget) {
+                            if weight(&blocks(&o)) < weight(&bl) {
+                                cur = o;
+                                improved = true;
+                            }
+                        }
                     }
+                    k += 1;
                 }
+                bi += 1;
             }
-            k += 1;
         }
     }
-    (cur, 3000 - budget)
+    (cur, 12000 - budget)
 }
 
 // ---------------------------------------------------------------- check
@@ -336,7 +337,7 @@ fn cmd_check(prop: Prop, tier: &str) -> i32 {
         let (min, used) = shrink(&prof, &known, out, &v.sig);
         // final replay with trace, in this process
         let mut st = Stats::default();
-        let traced = run_one(&prof, Chooser::replay(min.choices.clone()), &mut st, &known, true);
+        let traced = run_one(&prof, Chooser::replay(blocks(&min)), &mut st, &known, true);
         let reproduced = same(&traced, &v.sig);
         let vm = traced.violation.clone().unwrap_or(v.clone());
         let _ = std::fs::create_dir_all(format!("{}/replays", dir));
@@ -353,9 +354,11 @@ fn cmd_check(prop: Prop, tier: &str) -> i32 {
         j.set("choices_before_minimisation", J::i(before as u64));
         j.set("minimisation_reexecutions", J::i(used));
         j.set("reproduced_after_minimisation", J::Bool(reproduced));
-        j.set("cfg_end", J::i(min.cfg_end));
-        j.set("marks", J::Arr(min.marks.iter().map(|&m| J::i(m)).collect()));
-        j.set("choices", J::Arr(min.choices.iter().map(|&c| J::i(c)).collect()));
+        j.set("config_blocks", J::i(min.cfg_end));
+        j.set(
+            "blocks",
+            J::Arr(blocks(&min).iter().map(|b| J::Arr(b.iter().map(|&c| J::i(c)).collect())).collect()),
+        );
         j.set("trace", J::strs(traced.trace.clone().unwrap_or_default()));
         if let Err(e) = std::fs::write(&replay_path, j.dump()) {
             die(&format!("cannot write replay file {}: {}", replay_path, e));
@@ -545,12 +548,12 @@ fn cmd_replay(path: &str) -> i32 {
     };
     let prop = j.get("property").and_then(|p| p.as_str()).and_then(Prop::parse).unwrap_or_else(|| die("replay file has no property"));
     let sig = j.get("signature").and_then(|p| p.as_str()).unwrap_or_else(|| die("replay file has no signature")).to_string();
-    let choices: Vec<u32> = j
-        .get("choices")
+    let choices: Vec<Vec<u32>> = j
+        .get("blocks")
         .and_then(|c| c.as_arr())
-        .unwrap_or_else(|| die("replay file has no choices"))
+        .unwrap_or_else(|| die("replay file has no blocks"))
         .iter()
-        .map(|v| v.as_i64().unwrap_or(0) as u32)
+        .map(|b| b.as_arr().map(|a| a.iter().map(|v| v.as_i64().unwrap_or(0) as u32).collect()).unwrap_or_default())
         .collect();
     let known = load_known();
     let prof = profile_for(prop);
